@@ -91,16 +91,42 @@ def ensure_occurs(rng, mspec, arrays):
 
 
 # ------------------------------------------------------------------ calling the real code
+MUTATED = []  # (function name, argument label): a public call changed one of the caller's arrays (byte comparison)
+
+
+def _arrays(label, v, out):
+    if isinstance(v, np.ndarray) and v.dtype != object:
+        out.append((label, v))
+    elif isinstance(v, (list, tuple)):
+        for n, x in enumerate(v):
+            _arrays(f"{label}[{n}]", x, out)
+
+
 def call(fn, *a, **k):
-    """-> ("ok", value) | ("raise", exception class name)"""
+    """-> ("ok", value) | ("raise", exception class name).  Every real call goes through here: an exception of the real
+    code never escapes the harness, and the caller's arrays are compared byte for byte before / after the call (a call
+    that changed one is recorded in MUTATED and the content is restored so that later comparisons stay meaningful)."""
+    arrs = []
+    for n, v in enumerate(a):
+        _arrays(f"arg{n}", v, arrs)
+    for key, v in k.items():
+        _arrays(key, v, arrs)
+    snap = [(lab, x, x.copy()) for lab, x in arrs]
     with warnings.catch_warnings(), np.errstate(all="ignore"):
         warnings.simplefilter("ignore")
         try:
-            return ("ok", fn(*a, **k))
+            out = ("ok", fn(*a, **k))
         except Exception as ex:  # noqa: BLE001
             if isinstance(ex, ValueError) and "No objects to concatenate" in str(ex):
-                return ("raise", "NoRows")  # pandas: every row of the result frame was dropped (inf somewhere)
-            return ("raise", type(ex).__name__)
+                out = ("raise", "NoRows")  # pandas: every row of the result frame was dropped (inf somewhere)
+            else:
+                out = ("raise", type(ex).__name__)
+    for lab, x, before in snap:
+        if x.tobytes() != before.tobytes():
+            if (getattr(fn, "__name__", str(fn)), lab) not in MUTATED:
+                MUTATED.append((getattr(fn, "__name__", str(fn)), lab))
+            x[...] = before
+    return out
 
 
 def row(df, key, metric, colname="Bias"):
@@ -301,7 +327,8 @@ def run_case(k, rng, tier, batch, res, problems, n_oracle):
     if flavour == "regular":
         for _, _, ms in metrics:
             ensure_occurs(rng, ms, [obs, rawV, bcV, rawF, bcF])
-    stats = rng.choice([["mean", 0.05, 0.95], ["mean", 0.5, 0.25], ["mean", 0.0, 1.0, 0.3], [0.75, "mean"]])
+    stats = rng.choice([["mean", 0.05, 0.95], ["mean", 0.5, 0.25], ["mean", 0.0, 1.0, 0.3], [0.75, "mean"],
+                        ["mean", 0.975, 0.005], [0.995, "mean", 0.999], ["mean", rng.randint(1, 1023) / 1024.0, rng.randint(1, 255) / 256.0]])
     scale = float(max(np.abs(a).max() for a in (obs, rawV, bcV, rawF, bcF)))
     case = {"grid": [I, J], "flavour": flavour, "years_validate": ny_v, "years_future": ny_f, "T_validate": len(tV), "T_future": len(tF),
             "statistics": stats, "metrics": [m[1] for m in metrics]}
@@ -461,6 +488,10 @@ def run_case(k, rng, tier, batch, res, problems, n_oracle):
     # ---------------- property oracle: metamorphic relations on the real code (small budget per case)
     if k < n_oracle:
         oracle_relations(rng, case, data, problem, obs, rawV, rawF, bcV, bcF, tV, tF, metrics, stats, scale)
+    for fname, lab in MUTATED:
+        problem(fname, f"the call modified the caller's array passed as '{lab}' (content differs byte for byte after the call)",
+                {"relation": "inputs_unchanged"})
+    del MUTATED[:]
     return case
 
 
@@ -567,89 +598,116 @@ SEASON = {12: "Winter", 1: "Winter", 2: "Winter", 3: "Spring", 4: "Spring", 5: "
           9: "Autumn", 10: "Autumn", 11: "Autumn"}
 
 
-def oracle_time_scoped(case, problem, obs, rawV, rawF, bcV, bcF, tV, tF, scale):
-    """a metric whose threshold depends on the season: every probability must be taken with the time axis of ITS data set
-    (validation data with time_validate, future data with time_future; obs / cm with their own times)"""
+def oracle_time_scoped(case, problem, obs, rawV, rawF, bcV, bcF, tV, tF, scale, stats=()):
+    """metrics whose threshold depends on the season / the month, evaluated in the SAME call as the statistics: every
+    probability must be taken with the time axis of ITS data set (validation data with time_validate, future data with
+    time_future; obs / cm with their own times) and from the data as the caller passed them (time order intact)"""
     from ibicus.evaluate import marginal, multivariate, trend
     from ibicus.evaluate.metrics import ThresholdMetric
 
     lo, hi = float(np.quantile(rawV, 0.2)), float(np.quantile(rawV, 0.8))
-    thr = {"Winter": round(lo * 8) / 8, "Spring": round((lo + hi) * 4) / 8, "Summer": round(hi * 8) / 8, "Autumn": round((lo + hi) * 4) / 8 + 0.125}
-    m = ThresholdMetric(threshold_value=dict(thr), threshold_type="higher", threshold_scope="season", name="seasonal")
-
-    def inst(x, t):
-        th = np.array([thr[SEASON[d.month]] for d in t])[:, None, None]
-        return x > th
-
-    def prob(x, t):
-        return inst(x, t).sum(axis=0) / x.shape[0]
-
-    def tb(tt, v, f_):
-        rV, rF, bV, bF = prob(rawV, tV), prob(rawF, tF), prob(v, tV), prob(f_, tF)
-        with np.errstate(all="ignore"):
-            if tt == "additive":
-                bt_, rt = bF - bV, rF - rV
-            else:
-                if np.any(np.abs(bV) < 1e-6) or np.any(np.abs(rV) < 1e-6):
-                    return None
-                bt_, rt = bF / bV, rF / rV
-            if np.any(np.abs(rt) < 1e-6):
-                return None
-            return 100 * (bt_ - rt) / rt
-
+    mid = round((lo + hi) * 4) / 8
+    thr_s = {"Winter": round(lo * 8) / 8, "Spring": mid, "Summer": round(hi * 8) / 8, "Autumn": mid + 0.125}
+    thr_m = {mth: [round(lo * 8) / 8, mid, round(hi * 8) / 8][mth % 3] + 0.125 * (mth % 2) for mth in range(1, 13)}
+    scoped = [
+        (ThresholdMetric(threshold_value=dict(thr_s), threshold_type="higher", threshold_scope="season", name="seasonal"), "seasonal",
+         lambda d: thr_s[SEASON[d.month]]),
+        (ThresholdMetric(threshold_value=dict(thr_m), threshold_type="lower", threshold_scope="month", name="monthly"), "monthly",
+         lambda d: thr_m[d.month]),
+    ]
+    mobjs = [m for m, _, _ in scoped]
+    stats = list(stats)
     rel = {"relation": "time_scoped_metric"}
-    for tt in ("additive", "multiplicative"):
-        ref = tb(tt, bcV, bcF)
-        if ref is not None:
-            out = call(trend.calculate_future_trend_bias, raw_validate=rawV, raw_future=rawF, statistics=[], trend_type=tt, metrics=[m],
-                       time_validate=tV, time_future=tF, bc=[bcV, bcF])
-            why = differs(out if out[0] == "raise" else ("ok", row(out[1], "bc", "seasonal")), ref, 100.0)
-            if why:
-                problem("calculate_future_trend_bias", f"{tt} trend bias of a season-scoped metric: {why}", {**rel, "tt": tt})
-        bV, bF = prob(bcV, tV), prob(bcF, tF)
-        ref = bF - bV if tt == "additive" else (None if np.any(np.abs(bV) < 1e-6) else bF / bV)
-        if ref is not None:
-            out = call(trend.calculate_future_trend, statistics=[], trend_type=tt, metrics=[m], time_validate=tV, time_future=tF, bc=[bcV, bcF])
-            why = differs(out if out[0] == "raise" else ("ok", row(out[1], "bc", "seasonal")), ref, 1.0)
-            if why:
-                problem("calculate_future_trend", f"{tt} trend of a season-scoped metric: {why}", {**rel, "tt": tt})
-    # marginal bias with different time axes for obs and cm (future data as the 'model')
-    pO, pC = prob(obs, tV), prob(rawF, tF)
-    out = call(marginal.calculate_marginal_bias, obs=[obs, tV], statistics=[], metrics=[m], percentage_or_absolute="absolute", fut=[rawF, tF])
-    why = differs(out if out[0] == "raise" else ("ok", row(out[1], "fut", "seasonal")), 365 * pC - 365 * pO, 365.0)
-    if why:
-        problem("calculate_marginal_bias", f"absolute bias of a season-scoped metric: {why}", rel)
-    if not np.any(np.abs(pO) < 1e-6):
-        out = call(marginal.calculate_marginal_bias, obs=[obs, tV], statistics=[], metrics=[m], percentage_or_absolute="percentage", fut=[rawF, tF])
-        why = differs(out if out[0] == "raise" else ("ok", row(out[1], "fut", "seasonal")), 100 * (pC - pO) / pO, 100.0)
-        if why:
-            problem("calculate_marginal_bias", f"percentage bias of a season-scoped metric: {why}", rel)
-    # days per year
-    def days(x, t):
-        yrs = np.array([d.year for d in t])
-        i_ = inst(x, t)
-        return np.mean([i_[yrs == y].sum(axis=0) for y in np.unique(yrs)], axis=0)
+    # every reference is computed here, before any call, from the caller's data
+    for (m, name, thr_of) in scoped:
+        lower = name == "monthly"
 
-    out = call(marginal.calculate_bias_days_metrics, obs_data=[obs, tV], metrics=[m], fut=[rawF, tF])
-    for col, ref in (("CM", days(rawF, tF)), ("Obs", days(obs, tV)), ("Bias", days(rawF, tF) - days(obs, tV))):
-        why = differs(out if out[0] == "raise" else ("ok", row(out[1], "fut", "seasonal", col)), ref, 10.0)
+        def inst(x, t):
+            th = np.array([thr_of(d) for d in t])[:, None, None]
+            return (x < th) if lower else (x > th)
+
+        def prob(x, t):
+            return inst(x, t).sum(axis=0) / x.shape[0]
+
+        def days(x, t):
+            yrs = np.array([d.year for d in t])
+            i_ = inst(x, t)
+            return np.mean([i_[yrs == y].sum(axis=0) for y in np.unique(yrs)], axis=0)
+
+        rV, rF, bV, bF, pO = prob(rawV, tV), prob(rawF, tF), prob(bcV, tV), prob(bcF, tF), prob(obs, tV)
+        refs = {}
+        with np.errstate(all="ignore"):
+            rt = rF - rV
+            refs["tb_additive"] = None if np.any(np.abs(rt) < 1e-6) else 100 * ((bF - bV) - rt) / rt
+            if np.any(np.abs(bV) < 1e-6) or np.any(np.abs(rV) < 1e-6) or np.any(np.abs(rF) < 1e-6):
+                refs["tb_multiplicative"] = None
+            else:
+                refs["tb_multiplicative"] = 100 * (bF / bV - rF / rV) / (rF / rV)
+            refs["t_additive"] = bF - bV
+            refs["t_multiplicative"] = None if np.any(np.abs(bV) < 1e-6) else bF / bV
+            refs["m_absolute"] = 365 * rF - 365 * pO
+            refs["m_percentage"] = None if np.any(np.abs(pO) < 1e-6) else 100 * (rF - pO) / pO
+        refs["days"] = (days(rawF, tF), days(obs, tV))
+        a_, b_ = inst(rawV, tV), inst(bcV, tV)
+        refs["chi"] = 100.0 * (a_ & b_).sum(axis=0) / b_.sum(axis=0) if np.all(b_.sum(axis=0) > 0) else None
+        scoped[scoped.index((m, name, thr_of))] = (m, name, refs)
+
+    for tt in ("additive", "multiplicative"):
+        st_tb = stats if all(ref_trend_bias(tt, st, rawV, rawF, bcV, bcF) is not None for st in stats) else []
+        st_t = stats if all(ref_trend(tt, st, bcV, bcF) is not None for st in stats) else []
+        use = [(m, name, refs) for m, name, refs in scoped if refs["tb_" + tt] is not None]
+        if use and not (tt == "multiplicative" and len(use) < len(scoped)):  # a zero guard of the other metric would abort the call
+            out = call(trend.calculate_future_trend_bias, raw_validate=rawV, raw_future=rawF, statistics=st_tb, trend_type=tt,
+                       metrics=[m for m, _, _ in use], time_validate=tV, time_future=tF, bc=[bcV, bcF])
+            for m, name, refs in use:
+                why = differs(out if out[0] == "raise" else ("ok", row(out[1], "bc", name)), refs["tb_" + tt], 100.0)
+                if why:
+                    problem("calculate_future_trend_bias", f"{tt} trend bias of the {name} metric evaluated after the statistics {st_tb}: {why}",
+                            {**rel, "tt": tt})
+        use = [(m, name, refs) for m, name, refs in scoped if refs["t_" + tt] is not None]
+        if use and not (tt == "multiplicative" and len(use) < len(scoped)):
+            out = call(trend.calculate_future_trend, statistics=st_t, trend_type=tt, metrics=[m for m, _, _ in use], time_validate=tV,
+                       time_future=tF, bc=[bcV, bcF])
+            for m, name, refs in use:
+                why = differs(out if out[0] == "raise" else ("ok", row(out[1], "bc", name)), refs["t_" + tt], 1.0)
+                if why:
+                    problem("calculate_future_trend", f"{tt} trend of the {name} metric evaluated after the statistics {st_t}: {why}", {**rel, "tt": tt})
+    # marginal bias with different time axes for obs and cm (future data as the 'model')
+    out = call(marginal.calculate_marginal_bias, obs=[obs, tV], statistics=stats, metrics=mobjs, percentage_or_absolute="absolute", fut=[rawF, tF])
+    for m, name, refs in scoped:
+        why = differs(out if out[0] == "raise" else ("ok", row(out[1], "fut", name)), refs["m_absolute"], 365.0)
         if why:
-            problem("calculate_bias_days_metrics", f"{col} of a season-scoped metric: {why}", rel)
+            problem("calculate_marginal_bias", f"absolute bias of the {name} metric: {why}", rel)
+    st_m = stats if all(ref_marginal("percentage", st, obs, rawF) is not None for st in stats) else []
+    out = call(marginal.calculate_marginal_bias, obs=[obs, tV], statistics=st_m, metrics=mobjs, percentage_or_absolute="percentage", fut=[rawF, tF])
+    for m, name, refs in scoped:
+        if refs["m_percentage"] is not None:
+            why = differs(out if out[0] == "raise" else ("ok", row(out[1], "fut", name)), refs["m_percentage"], 100.0)
+            if why:
+                problem("calculate_marginal_bias", f"percentage bias of the {name} metric: {why}", rel)
+    # days per year
+    out = call(marginal.calculate_bias_days_metrics, obs_data=[obs, tV], metrics=mobjs, fut=[rawF, tF])
+    for m, name, refs in scoped:
+        dC, dO = refs["days"]
+        for col, ref in (("CM", dC), ("Obs", dO), ("Bias", dC - dO)):
+            why = differs(out if out[0] == "raise" else ("ok", row(out[1], "fut", name, col)), ref, 10.0)
+            if why:
+                problem("calculate_bias_days_metrics", f"{col} of the {name} metric: {why}", rel)
     # conditional exceedance with the time axis as third list element
-    a, b = inst(rawV, tV), inst(bcV, tV)
-    if np.all(b.sum(axis=0) > 0):
-        out = call(multivariate.calculate_conditional_joint_threshold_exceedance, m, m, d=[rawV, bcV, tV])
-        got = out if out[0] == "raise" else ("ok", np.asarray(out[1]["Conditional exceedance probability"].iloc[0], dtype=float))
-        why = differs(got, 100.0 * (a & b).sum(axis=0) / b.sum(axis=0), 100.0)
-        if why:
-            problem("calculate_conditional_joint_threshold_exceedance", f"season-scoped metric: {why}", rel)
+    for m, name, refs in scoped:
+        if refs["chi"] is not None:
+            out = call(multivariate.calculate_conditional_joint_threshold_exceedance, m, m, d=[rawV, bcV, tV])
+            got = out if out[0] == "raise" else ("ok", np.asarray(out[1]["Conditional exceedance probability"].iloc[0], dtype=float))
+            why = differs(got, refs["chi"], 100.0)
+            if why:
+                problem("calculate_conditional_joint_threshold_exceedance", f"{name} metric: {why}", rel)
 
 
 def oracle_relations(rng, case, data, problem, obs, rawV, rawF, bcV, bcF, tV, tF, metrics, stats, scale):
     from ibicus.evaluate import correlation, marginal, multivariate, trend
 
     oracle_positional(case, problem, obs, rawV, rawF, bcV, bcF, tV, tF, metrics, stats, scale)
-    oracle_time_scoped(case, problem, obs, rawV, rawF, bcV, bcF, tV, tF, scale)
+    oracle_time_scoped(case, problem, obs, rawV, rawF, bcV, bcF, tV, tF, scale, stats)
 
     mobjs = [m[0] for m in metrics]
     I, J = obs.shape[1:]
@@ -788,6 +846,85 @@ def oracle_relations(rng, case, data, problem, obs, rawV, rawF, bcV, bcF, tV, tF
             problem("rmse_spatial_correlation_distribution", "RMSE of a data set against itself is not 0", {"relation": "rmse_self_zero"})
 
 
+def long_record_case(long_seed, res, problems):
+    """One long daily record (100 years x 365 days = 36500 steps, 1x1) with metrics that hold on most days (more than
+    32767 exceedances): every count-based quantity through the public functions against independent integer counts.
+    Real code + oracle only (the counts are plain integers; no float statistic is involved)."""
+    from ibicus.evaluate import marginal, multivariate, trend
+    from ibicus.evaluate.metrics import ThresholdMetric
+
+    rng = random.Random(long_seed)  # its own generator: the seed alone reproduces the record (replay)
+    T = 36500
+    y0 = rng.randint(1850, 1950)
+    time = np.array([datetime.date(y0 + n // 365, 1, 1) + datetime.timedelta(days=n % 365) for n in range(T)], dtype=object)
+    thr = rng.randint(8, 40) / 8.0
+
+    def data(frac_true):
+        u_ = np.array([rng.random() for _ in range(T)])
+        x = np.where(u_ < frac_true, thr + 1.0 + np.floor(u_ * 64) / 8.0, thr - 1.0 - np.floor(u_ * 8) / 8.0)
+        return x.reshape(T, 1, 1)
+
+    obs, rawV, rawF, bcV, bcF = data(0.97), data(0.93), data(0.95), data(0.96), data(0.99)
+    m = ThresholdMetric(threshold_value=thr, threshold_type="higher", name="most days")
+    m2 = ThresholdMetric(threshold_value=thr + 2.0, threshold_type="higher", name="most days 2")
+    cnt = lambda x, t=thr: int((x[:, 0, 0] > t).sum())  # noqa: E731
+    nO, nRV, nRF, nBV, nBF = (cnt(a) for a in (obs, rawV, rawF, bcV, bcF))
+    case = {"what": "long record", "grid": [1, 1], "T": T, "years": 100, "threshold": thr, "counts": [nO, nRV, nRF, nBV, nBF],
+            "long_seed": long_seed, "first_values_rawV": rawV[:6, 0, 0].tolist(),
+            "note": "the record is regenerated from long_seed by harness.c20.long_record_case (values thr+1+floor(64u)/8 on exceedance days, thr-1-floor(8u)/8 otherwise)"}
+    if res is not None:
+        res.count(("long", T, thr, nO, nRV), True)
+        res.extra["long_record_min_count"] = min(nO, nRV, nRF, nBV, nBF)
+
+    def problem(what, why):
+        problems.append((f"{what}: long record ({T} daily steps, 1x1, {min(nO, nRV, nRF, nBV, nBF)}+ exceedance days): {why}",
+                         {"what": what, "relation": "long_record", **case}))
+
+    def val(out, key, name, col="Bias"):
+        if out[0] == "raise":
+            return out
+        r = row(out[1], key, name, col)
+        return ("ok", r)
+
+    A = lambda v: np.array([[v]], dtype=float)  # noqa: E731
+    pO, pRV, pRF, pBV, pBF = (n / T for n in (nO, nRV, nRF, nBV, nBF))
+    out = call(marginal.calculate_marginal_bias, obs=obs, statistics=["mean"], metrics=[m], raw=rawV)
+    why = differs(val(out, "raw", "most days"), A(100 * (pRV - pO) / pO), 100.0)
+    if why:
+        problem("calculate_marginal_bias", f"percentage bias of the metric: {why}")
+    out = call(marginal.calculate_marginal_bias, obs=obs, statistics=[], metrics=[m], percentage_or_absolute="absolute", raw=rawV)
+    why = differs(val(out, "raw", "most days"), A(365 * pRV - 365 * pO), 365.0)
+    if why:
+        problem("calculate_marginal_bias", f"absolute bias (days per year) of the metric: {why}")
+    for tt in ("additive", "multiplicative"):
+        bt_, rt = ((pBF - pBV), (pRF - pRV)) if tt == "additive" else (pBF / pBV, pRF / pRV)
+        if abs(rt) > 1e-6:
+            out = call(trend.calculate_future_trend_bias, raw_validate=rawV, raw_future=rawF, statistics=[], trend_type=tt, metrics=[m], bc=[bcV, bcF])
+            why = differs(val(out, "bc", "most days"), A(100 * (bt_ - rt) / rt), 100.0)
+            if why:
+                problem("calculate_future_trend_bias", f"{tt} trend bias of the metric: {why}")
+        out = call(trend.calculate_future_trend, statistics=[], trend_type=tt, metrics=[m], bc=[bcV, bcF])
+        why = differs(val(out, "bc", "most days"), A(bt_), 1.0)
+        if why:
+            problem("calculate_future_trend", f"{tt} trend of the metric: {why}")
+    for (ma, mb, xa, xb, label) in ((m, m, rawV, rawV.copy(), "chi(m, m)"), (m2, m, rawV, bcV, "chi(m2, m)")):
+        ta, tb_ = ma.threshold_value, mb.threshold_value
+        both = int(((xa[:, 0, 0] > ta) & (xb[:, 0, 0] > tb_)).sum())
+        out = call(multivariate.calculate_conditional_joint_threshold_exceedance, ma, mb, d=[xa, xb])
+        got = out if out[0] == "raise" else ("ok", np.asarray(out[1]["Conditional exceedance probability"].iloc[0], dtype=float))
+        why = differs(got, A(100.0 * both / cnt(xb, tb_)), 100.0)
+        if why:
+            problem("calculate_conditional_joint_threshold_exceedance", f"{label}: {why}")
+    out = call(marginal.calculate_bias_days_metrics, obs_data=[obs, time], metrics=[m], raw=[rawV, time])
+    for col, ref in (("CM", nRV / 100.0), ("Obs", nO / 100.0), ("Bias", nRV / 100.0 - nO / 100.0)):
+        why = differs(val(out, "raw", "most days", col), A(ref), 365.0)
+        if why:
+            problem("calculate_bias_days_metrics", f"{col}: {why}")
+    for fname, lab in MUTATED:
+        problem(fname, f"the call modified the caller's array passed as '{lab}'")
+    del MUTATED[:]
+
+
 def rmse_case(k, rng, lines, expect, res):
     """correlation.rmse_spatial_correlation_distribution vs the model's exact covariances (sqrt / mean done in float here)"""
     from ibicus.evaluate import correlation
@@ -867,6 +1004,8 @@ def run(tier, res, force_search=False):
     batch, problems = Batch(), []
     for k in range(n_cases):
         run_case(k, rng, tier, batch, res, problems, n_oracle)
+    for k in range(1 if tier == "quick" else 3):
+        long_record_case(C.seed() * 9973 + 2020 + k, res, problems)
     rl, rex = [], []
     for k in range(4 if tier == "quick" else 40):
         rmse_case(k, rng, rl, rex, res)
@@ -938,6 +1077,12 @@ def replay(data):
     if not fi:
         print("replay without failing input: run ./check C20 --tier quick")
         return 2
+    if fi.get("relation") == "long_record":
+        probs = []
+        long_record_case(fi["long_seed"], None, probs)
+        for p, _ in probs[:10]:
+            print("REPRODUCED:", p)
+        return 1 if probs else 0
     from ibicus.evaluate.metrics import ThresholdMetric
 
     d = fi["data"]
@@ -956,6 +1101,9 @@ def replay(data):
     obs, rawV, rawF, bcV, bcF, tV, tF = A("obs"), A("rawV"), A("rawF"), A("bcV"), A("bcF"), T("tV"), T("tF")
     scale = float(max(np.abs(a).max() for a in (obs, rawV, bcV, rawF, bcF)))
     oracle_relations(random.Random(0), fi, d, problem, obs, rawV, rawF, bcV, bcF, tV, tF, metrics, fi["statistics"], scale)
+    for fname, lab in MUTATED:
+        problem(fname, f"the call modified the caller's array passed as '{lab}'")
+    del MUTATED[:]
     # documented formulas
     from ibicus.evaluate import marginal, trend
 
